@@ -95,6 +95,10 @@ func c08Init() {
 			"@@\nvar f identifier\n@@\n-func f(a, b int, rest ...string) (n int, err error) {\n+func f(ctx Ctx, a, b int, rest ...string) (n int, err error) {\n   ...\n }\n",
 			"@@\nvar x expression\n@@\n-go func(a [3]int, m map[string]func(...int) []byte) { target(x) }(...)\n+go run(x)\n",
 			"@@\n@@\n-type Tgt interface {\n-  M(...) (..., error)\n-  ~int | ~[]byte\n-}\n+type Tgt any\n",
+			// struct fields with tags (the only literal that hangs off an optional field of a node) against structs
+			// whose fields have none, other ones, or no name
+			"@@\n@@\n type Tagged struct {\n-  Name string `json:\"name\"`\n+  Name string `json:\"n\"`\n   ...\n }\n",
+			"@@\nvar T identifier\nvar x expression\n@@\n type T struct {\n   ...\n-  ID x `db:\"id\"`\n+  ID x `db:\"pk\"`\n }\n",
 			// several import lines in one change, plain and named by metavariables in either order, on files that
 			// import all of the paths
 			"@@\nvar errors identifier\nvar x expression\n@@\n import \"fmt\"\n import errors \"errors\"\n\n-errors.New(fmt.Sprintf(x))\n+fmt.Errorf(x)\n",
@@ -141,6 +145,7 @@ func c08Init() {
 			licence+"package p\n\n// Load reads.\nfunc Load(n string) {\n\tlegacy(1)\n\tx()\n\tb, err := ioutil.ReadFile(n)\n}\n",
 		)
 		c08Targets = append(c08Targets, "package p\n\nimport (\n\t\"errors\"\n\t\"fmt\"\n\t\"io/ioutil\"\n\t\"os\"\n)\n\nfunc f(r io.Reader) error {\n\tb, _ := ioutil.ReadAll(r)\n\tuse(b, os.Args)\n\treturn errors.New(fmt.Sprintf(\"x\"))\n}\n")
+		c08Targets = append(c08Targets, "package p\n\ntype Tagged struct {\n\tName string\n\tAge  int `json:\"age\"`\n}\n\ntype Row struct {\n\tX  int\n\tID int64\n}\n\ntype Row2 struct {\n\tID int64 `db:\"id\"`\n}\n\ntype Emb struct {\n\tTagged `json:\",inline\"`\n\tName string `json:\"name\"`\n}\n")
 		for s := int64(1); s <= 6; s++ {
 			gg := gen.NewG(rand.New(rand.NewSource(s)))
 			gg.Comment = s%2 == 0
